@@ -663,6 +663,16 @@ harness! {
 }
 
 harness! {
+    /// kind=bounded tier=quick bound="i128 at the MAX of its unsigned twin (the accumulator type): sign in {none,'-','+'}, optional extra leading '0' or '1', the first 36 digits of u128::MAX, 3 symbolic digits; every such string must be rejected like str::parse does"
+    #[kani::unwind(45)]
+    fn c12_near_i128_twin_max(s) {
+        let (len, r, buf) = near::<i128, 43, _>(s, b"340282366920938463463374607431768211455", 3);
+        cov!(s, r.is_none() && len == 39 && buf[38] == b'1' && buf[37] == b'6' && buf[36] == b'4', "C12.cover.i128_twin_max_plus_6_rejected");
+        cov!(s, r.is_none() && len == 40 && buf[0] == b'-', "C12.cover.i128_twin_max_negative_rejected");
+    }
+}
+
+harness! {
     /// kind=bounded tier=thorough bound="i128: sign in {none,'-','+'}, optional extra leading '0' or '1', the first 31 digits of i128::MAX, 8 symbolic digits (all-symbolic 39-digit strings are out of reach for the signed 64/128-bit types: >40 min)"
     #[kani::unwind(45)]
     fn c12_near_i128_deep(s) {
